@@ -19,6 +19,8 @@ func init() {
 			"frame headers: profiles 0-3 x bit depth x colour spaces 0-7 x range x subsampling with 3 sizes, and all 36 sizes from {1,2,255,256,257,65535}^2 with 4 colour configurations; key, inter, intra-only and show-existing frames; every width 1..65536 x 3 heights in the header-parser sweep (thorough; quick: 4096 widths around byte boundaries)",
 			"MTU {4,11,12,13,14,20,100,1200}; a configuration whose MTU cannot carry the descriptor (3 bytes, 11 on the first packet of a non-flexible key frame) plus one byte is outside the property (sufficient MTU)",
 			"P is demanded for key (0) and inter (1) frames in non-flexible mode; for intra-only and show-existing frames nothing is demanded of P and the scalability structure",
+			"large scalability structures: N_G in {4,16,64,85,86,128,255} x R patterns (all 0, all 3, cyclic) x N_S {0,7} x Y, truncations sampled (every cut below 24, every 7th, the last 6)",
+			"frame pairs: a key frame followed on the same payloader by a near-identical one (width or height +-1, other profile, same) and the reverse; the second frame is held to the same per-frame oracle (its own coded size in the scalability structure, picture id +1, lossless)",
 			"decoder: SID >= 5 is not generated (documented library limit); coded width 65536 does not fit the 16-bit SS field and is not used with the non-flexible payloader",
 		},
 		Scenarios: []mc.Scenario{
@@ -26,6 +28,8 @@ func init() {
 			{Name: "header-parser", Tiers: "qt", ShardDepth: 3, Run: c12Header},
 			{Name: "header-all-widths", Tiers: "qt", ShardDepth: 2, Run: c12Widths},
 			{Name: "descriptor-decoder", Tiers: "qt", ShardDepth: 3, Run: c12Decoder},
+			{Name: "descriptor-large-picture-groups", Tiers: "qt", ShardDepth: 3, Run: c12LargeGroups},
+			{Name: "payloader-near-identical-frame-pairs", Tiers: "qt", ShardDepth: 3, Run: c12Pairs},
 		},
 	})
 }
@@ -255,7 +259,6 @@ func c12Payloader(c *mc.Ctx) {
 		if fh.Width > 65535 || fh.Height > 65535 {
 			return
 		}
-		isKey := !fh.NonKey && !fh.ShowExisting
 		first := 3
 		if !flexible && !fh.NonKey { // the library treats show-existing like a key frame here
 			first = 11
@@ -295,45 +298,7 @@ func c12Payloader(c *mc.Ctx) {
 			multi = true
 		}
 		wantID := uint16((startID + fi) & 0x7FFF)
-		var got []byte
-		for i, pk := range pkts {
-			if len(pk) > mtu {
-				c.Failf("mtu", "%s: packet %d has %d bytes", desc(), i, len(pk))
-			}
-			var d codecs.VP9Packet
-			out, err := d.Unmarshal(pk)
-			c.Ops(1)
-			if err != nil {
-				c.Failf("own-output-rejected", "%s: VP9Packet.Unmarshal(%s): %v", desc(), hx(pk), err)
-			}
-			got = append(got, out...)
-			if d.B != (i == 0) || d.E != (i == len(pkts)-1) || d.IsPartitionHead(pk) != (i == 0) {
-				c.Failf("begin-end-bits", "%s: packet %d of %d: B=%v E=%v IsPartitionHead=%v (%s)", desc(), i, len(pkts), d.B, d.E, d.IsPartitionHead(pk), hx(pk))
-			}
-			if !d.I || pk[1]&0x80 == 0 || d.PictureID != wantID {
-				c.Failf("picture-id", "%s: packet %d: I=%v 15-bit form=%v PictureID=%d, want %d", desc(), i, d.I, pk[1]&0x80 != 0, d.PictureID, wantID)
-			}
-			if d.F != flexible {
-				c.Failf("mode-bit", "%s: packet %d: F=%v", desc(), i, d.F)
-			}
-			if !flexible {
-				if (isKey && d.P) || (fh.NonKey && !fh.IntraOnly && !d.P) {
-					c.Failf("p-bit", "%s: packet %d: P=%v", desc(), i, d.P)
-				}
-				if isKey {
-					if i == 0 {
-						if !d.V || d.NS != 0 || !d.Y || len(d.Width) != 1 || len(d.Height) != 1 || int(d.Width[0]) != fh.Width || int(d.Height[0]) != fh.Height {
-							c.Failf("scalability-structure", "%s: first packet of a key frame: V=%v N_S=%d Y=%v sizes %v x %v, coded size %dx%d (%s)", desc(), d.V, d.NS, d.Y, d.Width, d.Height, fh.Width, fh.Height, hx(pk))
-						}
-					} else if d.V {
-						c.Failf("scalability-structure", "%s: packet %d carries a scalability structure", desc(), i)
-					}
-				}
-			}
-		}
-		if !bytes.Equal(got, keep) {
-			c.Failf("frame-differs", "%s: concatenated payloads %s, want %s", desc(), hx(got), hx(keep))
-		}
+		c12CheckFrame(c, pkts, keep, fh, flexible, mtu, wantID, desc)
 	}
 	if multi || (!flexible && !h.NonKey) {
 		c.NonTrivial()
@@ -496,4 +461,154 @@ func c12Compare(p *codecs.VP9Packet, d *ref.VP9Desc) string {
 		}
 	}
 	return ""
+}
+
+func c12LargeGroups(c *mc.Ctx) {
+	d := &ref.VP9Desc{V: true, G: true, B: true, I: c.Bool(), PictureID: 0x21}
+	d.NS = mc.From(c, []uint8{0, 7})
+	d.Y = c.Bool()
+	if d.Y {
+		for i := 0; i <= int(d.NS); i++ {
+			d.Width = append(d.Width, uint16(100+i))
+			d.Height = append(d.Height, uint16(200+i))
+		}
+	}
+	d.NG = mc.From(c, []uint8{4, 16, 64, 85, 86, 128, 255})
+	rpat := c.Pick(3)
+	for i := 0; i < int(d.NG); i++ {
+		r := []int{0, 3, i % 4}[rpat]
+		d.PGTID = append(d.PGTID, uint8(i%8))
+		d.PGU = append(d.PGU, i%2 == 0)
+		pd := []uint8{}
+		for j := 0; j < r; j++ {
+			pd = append(pd, uint8(i+j))
+		}
+		d.PGPDiff = append(d.PGPDiff, pd)
+	}
+	enc := d.Encode()
+	full := append(clone(enc), 0xAB, 0xCD)
+	if c.Verbose() {
+		c.Notef("descriptor with N_G=%d (%d bytes), R pattern %d", d.NG, len(enc), rpat)
+	}
+	n := 0
+	for cut := 0; cut <= len(full); cut++ {
+		if cut >= 24 && cut%7 != 0 && cut < len(full)-6 {
+			continue
+		}
+		n++
+		var p codecs.VP9Packet
+		out, err := p.Unmarshal(clone(full[:cut]))
+		if cut < len(enc) {
+			if err == nil {
+				c.Failf("truncated-accepted", "descriptor with N_G=%d cut to %d of %d bytes was accepted", d.NG, cut, len(enc))
+			}
+			continue
+		}
+		if err != nil {
+			c.Failf("well-formed-rejected", "descriptor with N_G=%d (%d bytes): %v", d.NG, len(enc), err)
+		}
+		if !bytes.Equal(out, full[len(enc):cut]) {
+			c.Failf("payload-differs", "descriptor with N_G=%d: returned %s", d.NG, hx(out))
+		}
+		if diff := c12Compare(&p, d); diff != "" {
+			c.Failf("fields-differ", "descriptor with N_G=%d R pattern %d: %s", d.NG, rpat, diff)
+		}
+	}
+	c.Ops(n)
+	c.Cases(n - 1)
+	c.NonTrivial()
+	c.Outcome(fmt.Sprintf("NG=%d", d.NG))
+}
+
+func c12Pairs(c *mc.Ctx) {
+	flexible := c.Bool()
+	mtu := mc.From(c, []int{20, 100, 1200})
+	h := c12Frame(c)
+	if h.NonKey || h.ShowExisting {
+		return
+	}
+	v := *h
+	switch c.Pick(6) {
+	case 0:
+	case 1:
+		v.Width++
+	case 2:
+		v.Height++
+	case 3:
+		v.Height--
+	case 4:
+		v.Profile = (v.Profile + 2) % 4
+	case 5:
+		v.Width, v.Height = v.Height, v.Width
+	}
+	if v.Width < 1 || v.Height < 1 || v.Width > 65535 || v.Height > 65535 || h.Width > 65535 || h.Height > 65535 {
+		return
+	}
+	first, second := h, &v
+	if c.Bool() {
+		first, second = second, first
+	}
+	n := mc.From(c, []int{0, 30, 2 * mtu})
+	start := uint16(mc.From(c, []int{5, 0x7FFF}))
+	used := &codecs.VP9Payloader{FlexibleMode: flexible, InitialPictureIDFn: func() uint16 { return start }}
+	used.Payload(uint16(mtu), first.Encode(n, 1))
+	frame := second.Encode(n, 2)
+	got := used.Payload(uint16(mtu), clone(frame))
+	c.Ops(2)
+	desc := func() string {
+		return fmt.Sprintf("flexible=%v mtu=%d: second frame on the payloader, after %s: %s, %d bytes", flexible, mtu, c12DescribeFrame(first), c12DescribeFrame(second), len(frame))
+	}
+	if c.Verbose() {
+		c.Notef("%s", desc())
+	}
+	if len(got) == 0 {
+		c.Failf("no-packets", "%s: no packet returned", desc())
+	}
+	c12CheckFrame(c, got, frame, second, flexible, mtu, (start+1)&0x7FFF, desc)
+	c.NonTrivial()
+	c.Outcome(fmt.Sprintf("flex=%v", flexible))
+}
+
+// c12CheckFrame is the per-frame oracle of the payloader scenarios.
+func c12CheckFrame(c *mc.Ctx, pkts [][]byte, keep []byte, fh *ref.VP9FrameHeader, flexible bool, mtu int, wantID uint16, desc func() string) {
+	isKey := !fh.NonKey && !fh.ShowExisting
+	var got []byte
+	for i, pk := range pkts {
+		if len(pk) > mtu {
+			c.Failf("mtu", "%s: packet %d has %d bytes", desc(), i, len(pk))
+		}
+		var d codecs.VP9Packet
+		out, err := d.Unmarshal(pk)
+		c.Ops(1)
+		if err != nil {
+			c.Failf("own-output-rejected", "%s: VP9Packet.Unmarshal(%s): %v", desc(), hx(pk), err)
+		}
+		got = append(got, out...)
+		if d.B != (i == 0) || d.E != (i == len(pkts)-1) || d.IsPartitionHead(pk) != (i == 0) {
+			c.Failf("begin-end-bits", "%s: packet %d of %d: B=%v E=%v IsPartitionHead=%v (%s)", desc(), i, len(pkts), d.B, d.E, d.IsPartitionHead(pk), hx(pk))
+		}
+		if !d.I || pk[1]&0x80 == 0 || d.PictureID != wantID {
+			c.Failf("picture-id", "%s: packet %d: I=%v 15-bit form=%v PictureID=%d, want %d", desc(), i, d.I, pk[1]&0x80 != 0, d.PictureID, wantID)
+		}
+		if d.F != flexible {
+			c.Failf("mode-bit", "%s: packet %d: F=%v", desc(), i, d.F)
+		}
+		if !flexible {
+			if (isKey && d.P) || (fh.NonKey && !fh.IntraOnly && !d.P) {
+				c.Failf("p-bit", "%s: packet %d: P=%v", desc(), i, d.P)
+			}
+			if isKey {
+				if i == 0 {
+					if !d.V || d.NS != 0 || !d.Y || len(d.Width) != 1 || len(d.Height) != 1 || int(d.Width[0]) != fh.Width || int(d.Height[0]) != fh.Height {
+						c.Failf("scalability-structure", "%s: first packet of a key frame: V=%v N_S=%d Y=%v sizes %v x %v, coded size %dx%d (%s)", desc(), d.V, d.NS, d.Y, d.Width, d.Height, fh.Width, fh.Height, hx(pk))
+					}
+				} else if d.V {
+					c.Failf("scalability-structure", "%s: packet %d carries a scalability structure", desc(), i)
+				}
+			}
+		}
+	}
+	if !bytes.Equal(got, keep) {
+		c.Failf("frame-differs", "%s: concatenated payloads %s, want %s", desc(), hx(got), hx(keep))
+	}
 }
